@@ -5,8 +5,11 @@ cd /repo || exit 2
 if ! git diff --quiet; then echo "repo dirty"; exit 2; fi
 git apply "$p" || { echo "patch does not apply"; exit 2; }
 ( export GOFLAGS=-mod=mod GOPROXY=off GOSUMDB=off GOTOOLCHAIN=local; go build ./... ) || echo "MUTANT DOES NOT BUILD"
+# evidence of a mutant run goes to a scratch directory, never to /verif/evidence
+sv=$(mktemp -d /tmp/gunyu_mut.XXXXXX); cp /verif/known_findings.json "$sv/"
 for id in "$@"; do
-  /verif/check.sh "$id" quick | grep -v "^property=" | cut -c1-400
-  echo "== $id exit=$?"
+  /verif/bin/gunyucheck -property "$id" -tier quick -verif "$sv" -repo /repo | grep -v "^property=" | sed "s#$sv#/verif#" | cut -c1-400
+  echo "== $id"
 done
+rm -rf "$sv"
 git checkout -- . 
